@@ -227,13 +227,14 @@ class Cmp:
 
 
 class Outcome:
-    __slots__ = ('ret', 'cells', 'trace', 'forked')
+    __slots__ = ('ret', 'cells', 'trace', 'forked', 'cmp_forked')
 
-    def __init__(self, ret, cells, trace, forked):
+    def __init__(self, ret, cells, trace, forked, cmp_forked=False):
         self.ret = ret
         self.cells = cells
         self.trace = trace
         self.forked = forked
+        self.cmp_forked = cmp_forked
 
 
 class Interp:
@@ -732,6 +733,8 @@ class Interp:
         for o, back in outs:
             st2 = dict(st)
             st2['#alias'] = dict(st['#alias'])
+            if o.cmp_forked:
+                st2['#cmpfork'] = True
             if back:
                 for i, v in back.items():
                     self._write_ref(st2, args[i], v)
@@ -788,7 +791,7 @@ class Interp:
                     rv = st.get(0, ())
                     if isinstance(rv, Cmp):
                         rv = Cmp(rv.op, None, None, rv.res)     # operands are locals of this frame
-                    results.append(Outcome(rv, st['#cells'], None, forked))
+                    results.append(Outcome(rv, st['#cells'], None, forked, bool(st.get('#cmpfork'))))
                     break
                 if k == 'unreachable':
                     break
@@ -817,10 +820,13 @@ class Interp:
                         for val, tgt in ((True, tgt_true), (False, tgt_false)):
                             st2 = dict(st)
                             st2['#alias'] = dict(st['#alias'])
+                            st2['#cmpfork'] = True
                             if self.refine(st2, d, val):
                                 work.append((tgt, st2, True))
                         break
                     if d is TOP:
+                        st = dict(st)
+                        st['#cmpfork'] = True
                         for x in t['targets']:
                             work.append((x[1], dict(st), True))
                         work.append((t['otherwise'], dict(st), True))
